@@ -43,13 +43,20 @@ type report struct {
 }
 
 func main() {
-	out := flag.String("out", "/verif/.work/instr", "output directory")
+	out := flag.String("out", ".work/instr", "output directory")
 	mode := flag.String("mode", "full", "full | maps | none")
 	flag.Parse()
+	if abs, err := filepath.Abs(*out); err == nil {
+		*out = abs
+	}
 	os.MkdirAll(*out, 0755)
 	rep := report{Mode: *mode}
+	vdir := os.Getenv("KV_VERIF_DIR")
+	if vdir == "" {
+		vdir = "/verif"
+	}
 	overlay := map[string]string{
-		filepath.Join(repo, "klog/verifrt/vrt/vrt.go"): "/verif/vrt/vrt.go",
+		filepath.Join(repo, "klog/verifrt/vrt/vrt.go"): filepath.Join(vdir, "vrt/vrt.go"),
 	}
 	if *mode != "none" {
 		cfg := &packages.Config{
